@@ -102,11 +102,17 @@ fn corrupt_cases(o: &mut Out, b: &Built, rng: &mut Rng, thorough: bool) {
             // (a chunk whose TYPE was flipped is no longer a data chunk of that frame: the error may come anywhere)
             // (an ancillary chunk that sits between two frames is read on the way to the NEXT frame: that is the frame it belongs to)
             let frame = if i > last_data || kind == 3 { None } else { (i..n).find(|&j| &chunks[j].ty == b"IDAT" || &chunks[j].ty == b"fdAT").map(|j| fo[j]) };
-            for (oi, opts) in [Opts::default(), Opts { skip_anc_crc: false, ..Opts::default() }].iter().enumerate() {
+            // chunks the caller asked to ignore are still covered by the CRC rule (two more option sets, for the chunk kinds they concern)
+            let mut optsets = vec![Opts::default(), Opts { skip_anc_crc: false, ..Opts::default() }];
+            if [&b"tEXt"[..], &b"zTXt"[..], &b"iTXt"[..], &b"iCCP"[..]].contains(&&ty[..]) {
+                optsets.push(Opts { skip_anc_crc: false, ignore_text: true, ignore_iccp: true, ..Opts::default() });
+                optsets.push(Opts { ignore_text: true, ignore_iccp: true, ..Opts::default() });
+            }
+            for (oi, opts) in optsets.iter().enumerate() {
                 o.mark(&format!("crc {} {} #{} {} opts={} {}", b.name, tys, i, label, opts.bits(), hex(&bytes)));
                 let s = summarize(&bytes, &[0], *opts, 0);
                 o.direct_checks += 1;
-                o.count(&format!("corrupt.{}.{}", if is_critical(&ty) { "critical" } else if &ty == b"fdAT" { "fdAT" } else { "ancillary" }, if oi == 0 { "skip" } else { "noskip" }));
+                o.count(&format!("corrupt.{}.{}", if is_critical(&ty) { "critical" } else if &ty == b"fdAT" { "fdAT" } else { "ancillary" }, if opts.skip_anc_crc { "skip" } else { "noskip" }));
                 o.distinct(&format!("{}-{}-{}-{}", tys, kind, oi, i.min(12)));
                 let detail = |s: &Summary, extra: Vec<(&'static str, String)>| {
                     let mut d = vec![("file", jstr(&b.name)), ("chunk", jstr(&format!("#{} {}", i, tys))), ("corruption", jstr(&label)), ("opts", opts.bits().to_string()),
@@ -197,8 +203,31 @@ fn adler_cases(o: &mut Out, b: &Built, rng: &mut Rng) {
     let which = rng.below(4) as usize;
     let (ci, ck) = pos[pos.len() - 4 + which];
     c[ci].data[ck] ^= 1 << rng.below(8);
+    // every third file: the frame's data run starts with a chunk that carries no data (legal: an empty IDAT / an fdAT holding only its sequence number)
+    let mut good_bytes = b.bytes.clone();
+    if rng.chance(1, 3) {
+        let first = pos[0].0;
+        let mut orig = chunks.clone();
+        if &chunks[first].ty == b"IDAT" {
+            c.insert(first, crate::pngbuild::Chunk::new(b"IDAT", vec![]));
+            orig.insert(first, crate::pngbuild::Chunk::new(b"IDAT", vec![]));
+        } else {
+            c.insert(first, crate::pngbuild::Chunk::new(b"fdAT", vec![0, 0, 0, 0]));
+            orig.insert(first, crate::pngbuild::Chunk::new(b"fdAT", vec![0, 0, 0, 0]));
+            // renumber fcTL / fdAT in file order
+            for v in [&mut c, &mut orig] {
+                let mut seq = 0u32;
+                for ch in v.iter_mut() {
+                    if (&ch.ty == b"fcTL" || &ch.ty == b"fdAT") && ch.data.len() >= 4 { ch.data[..4].copy_from_slice(&seq.to_be_bytes()); seq += 1; }
+                }
+            }
+        }
+        good_bytes = assemble(&orig);
+        o.count("adler.run-starts-with-empty-chunk");
+    }
     let bytes = assemble(&c);
-    let good = summarize(&b.bytes, &[0], Opts::default(), 0);
+    let good = summarize(&good_bytes, &[0], Opts::default(), 0);
+    if good.ri != "ok" || !good.frame_ok(fr) { return; }
     for (ignore, label) in [(true, "ignored"), (false, "checked")] {
         let opts = Opts { ignore_adler: ignore, ..Opts::default() };
         o.mark(&format!("adler {} f{} opts={} {}", b.name, fr, opts.bits(), hex(&bytes)));
@@ -220,7 +249,7 @@ fn adler_cases(o: &mut Out, b: &Built, rng: &mut Rng) {
         }
     }
     // correct checksums must of course be accepted with checking on
-    let s = summarize(&b.bytes, &[0], Opts { ignore_adler: false, ..Opts::default() }, 0);
+    let s = summarize(&good_bytes, &[0], Opts { ignore_adler: false, ..Opts::default() }, 0);
     o.direct_checks += 1;
     if s.text() != good.text() {
         o.violation(viol("valid-file-rejected-with-adler-checking", "valid-file-rejected-with-adler-checking", vec![("file", jstr(&b.name)), ("bytes", jstr(&hex(&b.bytes))), ("result", jstr(&s.text()))]));
